@@ -62,6 +62,18 @@ CHECKS["C09"] = dict(engine="kani",
     text="Kani/CBMC model-checks every verification entry point (hazmat raw_verify / raw_verify_prehashed with a model digest; verify, verify_strict, verify_prehashed, verify_prehashed_strict with the SHA-512 transcript helper replaced by the same model transcript hash) for ALL 2^256 keys and 2^512 signatures against the RFC 8032 5.1.7 acceptance procedure: S canonical, A decodes, bytewise comparison of Encode([S]B - [k]A) with R, dom2 for prehash, and for strict: R decodes and neither R nor A has small order - in that order; plus the legacy_compatibility build where only the S range check becomes the top-three-bits test.",
     design_ref="DESIGN.md 6 C09", note=P_NOTE,
     technique="Kani/CBMC bounded model checking of the real Rust code with model functions (stubs) vs RFC 8032 reference")
+CHECKS["C15"] = dict(
+    category="model_checking",
+    text="Totality of the untrusted-input entry points: (a) every decoder / conversion whose body is field arithmetic (Edwards and Ristretto decompress/compress, the Ristretto one-way map, Montgomery<->Edwards conversions, Elligator2, sqrt_ratio_i/invsqrt, batch_invert) is executed from the O0 IR on EVERY combination of outcomes of its data-dependent predicates - which is exactly the set of algebraically exceptional inputs (zero denominators, u=-1, y=+-1, s=0, non-squares, non-canonical encodings) - and reaching a panic on any algebraically consistent path is a violation; (b) Kani model-checks the slice decoders of both crates for every slice length 0..=66; (c) the verification entry points are covered by C09's Kani harnesses (any reachable panic fails them).",
+    design_ref="DESIGN.md 6 C15",
+    note="Trusted: paths are pruned only when their assumptions are algebraically contradictory (GF(p) is an integral domain); panic edges guarded by number-theoretic facts (nonspec_map_to_curve's expect on the Elligator2 output, trait default methods' expect on all-Some inputs, Pippenger's digit-count expect) are outside this check and listed in DESIGN 7; batch verification totality is part of C13 when claimed; allocation failure and stack exhaustion are out of scope.",
+    technique="exhaustive path enumeration over symbolic executions of the LLVM IR (llsym layer F) + Kani/CBMC for slice-length handling")
+CHECKS["C17"] = dict(
+    category="model_checking",
+    text="ff/group glue with feature `group`: the PrimeField constants are read from the IR and checked against l as ground SMT obligations (MODULUS, TWO_INV, generator non-residue, ROOT_OF_UNITY = g^t of exact order 2^S, its inverse, DELTA, NUM_BITS/CAPACITY) together with the hard-coded Tonelli-Shanks exponent (t-1)/2 captured at the call into ff's helper; from_repr and from_repr_vartime return Some exactly for reprs below l for ALL 2^256 inputs (symbolic execution of the O0 IR with the scalar kernels replaced by their C02 contracts; the variable-time twin path by path), to_repr/is_odd/square/double/from_uniform_bytes agree with the inherent API; GroupEncoding for EdwardsPoint equals decompress/compress on every path; clear_cofactor = [8]P, Group::double/identity in the exact group model.",
+    design_ref="DESIGN.md 6 C17",
+    note="Trusted: ff::helpers::sqrt_tonelli_shanks (external crate) given correct constants; Field::invert's 'None only for zero' flag and SubgroupPoint/RistrettoPoint GroupEncoding are covered only through the shared decoders of C02/C03/C06 (not separately in this round); random() excluded (rejection loop).",
+    technique="ground SMT on constants read from LLVM IR + symbolic execution of the O0 IR with kernel contracts (llsym) ")
 NOT_YET = {}
 for i in range(2, 18):
     NOT_YET["C%02d" % i] = "check under construction in this round (see DESIGN.md 6 for the planned solver-based check); not claimed until it runs green"
